@@ -220,13 +220,22 @@ class MultitaskMultivariateNormal(MultivariateNormal):
             self.mean.unsqueeze(dim), self.lazy_covariance_matrix.unsqueeze(dim), interleaved=self._interleaved
         )
 
+    def _as_interleaved(self):
+        # The same distribution with its covariance matrix stored in the (default) interleaved layout
+        if self._interleaved:
+            return self
+        return self.__class__(self.mean, self._covariance_in_layout(True), interleaved=True)
+
     def _covariance_in_layout_of(self, other):
         # The covariance matrix of `self`, with rows / columns ordered like those of `other`
+        return self._covariance_in_layout(other._interleaved)
+
+    def _covariance_in_layout(self, interleaved):
         covar = self.lazy_covariance_matrix
-        if self._interleaved == other._interleaved:
+        if self._interleaved == interleaved:
             return covar
         num_data, num_tasks = self._output_shape[-2:]
-        if other._interleaved:
+        if interleaved:
             # position i * num_tasks + a of the interleaved layout holds entry a * num_data + i of this layout
             perm = torch.arange(num_tasks * num_data, device=self.mean.device).view(num_tasks, num_data).t().reshape(-1)
         else:
